@@ -133,6 +133,12 @@ impl Sandbox {
                 if let Some(tg) = &n.target {
                     n.target = Some(self.virt(tg).unwrap_or_else(|| format!("<outside>{}", tg)));
                 }
+                if let Some(r) = &n.rel {
+                    // (a link to its own directory stores the absolute path as relative form)
+                    if r.starts_with('/') {
+                        n.rel = Some(self.virt(r).unwrap_or_else(|| format!("<outside>{}", r)));
+                    }
+                }
                 nodes.insert(v, n);
             }
         }
@@ -595,7 +601,8 @@ pub fn run_diff(
         }
         stats.shapes.insert(mt.shape_hash());
         stats.bump(&format!("op.{}", vop.name()));
-        out.log_hash = hash_bytes(out.log_hash, format!("{:?}{:?}{:?}", vop, mn, sn).as_bytes());
+        // (the sandbox location carries the worker's pid: not part of a run's identity)
+        out.log_hash = hash_bytes(out.log_hash, format!("{:?}{:?}{:?}", vop, mn, sn).replace(&sb.root, "<SB>").as_bytes());
         out.log_hash = hash_bytes(out.log_hash, &mt.full_hash().to_le_bytes());
         // the model follows Memfs (it only steers generation and the domain filter)
         let pre_t = m.t.clone();
